@@ -66,7 +66,60 @@ class C06(Prop):
         c = json.loads(json.dumps(c07.gen_case(rng), default=lambda b: list(b)))
         return {"kind": "rich", "c07": c, "mem": rng.choice(c["inputs"])}
 
+    PM_ASSETS = ["elf/smallest", "elf/elf_with_imports", "elf/invalid_program_header", "pe/long_dll_name.exe",
+                 "pe/resources_only.dll", "pe/long_name_exporter.exe", "libyara/data/tiny", "libyara/data/tiny-idata-5200",
+                 "libyara/data/elf32_file", "libyara/data/elf64_file", "macho/tiny-macho"]
+    PM_CONFIGS = [(pm, api, kind) for pm in (False, True)
+                  for api, kind in (("list", "mem"), ("callback", "mem"), ("list", "file"), ("callback", "file"),
+                                    ("list", "mmap"), ("callback", "mmap"))]
+
+    def gen_pm(self, rng):
+        """Executable files and rules whose verdict depends on ScanParams::process_memory (entry points, module
+        layout): with the same flag, every API (list / callback) and every source of the bytes (buffer, file,
+        memory map) must report the same rules."""
+        import os
+        assets = [a for a in self.PM_ASSETS if os.path.exists(os.path.join(core.REPO, "boreal", "tests", "assets", a))]
+        a = rng.choice(assets) if assets else None
+        if a is None:
+            mem = b"\x7fELF" + bytes(60)
+        else:
+            mem = open(os.path.join(core.REPO, "boreal", "tests", "assets", a), "rb").read()[:65536]
+        k = rng.choice([0, 1, 0x1000, 0x400000, 0x401000])
+        conds = ["entrypoint >= %d" % k, "entrypoint < %d" % (k + 0x100), "defined entrypoint",
+                 "defined elf.entry_point and elf.entry_point >= %d" % k, "not defined elf.entry_point",
+                 "defined pe.entry_point and pe.entry_point < %d" % (k + 0x2000), "elf.number_of_sections > 2",
+                 "pe.number_of_sections > 1 and pe.sections[0].raw_data_offset > 0", "defined uint16(entrypoint)",
+                 "defined macho.entry_point", "pe.entry_point_raw == pe.entry_point", "filesize > 0 and uint8(0) == 0x7f"]
+        picked = [rng.choice(conds) for _ in range(rng.range(3, 6))]
+        src = 'import "elf"\nimport "pe"\nimport "macho"\n' + "".join(
+            "rule m%d { condition: %s }\n" % (i, c) for i, c in enumerate(picked))
+        return {"kind": "pm", "asset": a, "mem": mem.hex(), "rules_src": src}
+
+    def term_pm(self, ctx, case, out):
+        if not isinstance(out, dict) or "outs" not in out:
+            return (False, False, 0)
+        outs = out["outs"]
+        if any("compile_error" in o for o in outs):
+            ctx.count("pm: compile_error")
+            return (True, True, 0)
+        def matched(o):
+            rules = list(o.get("rules", [])) + [e["rule"] for e in o.get("events", []) if e.get("ev") == "match"]
+            return sorted((r["ns"], r["name"]) for r in rules if r["matched"])
+        ref = {}
+        for (pm, api, kind), o in zip(self.PM_CONFIGS, outs):
+            key = (o.get("error"), tuple(matched(o))) if "panic" not in o else ("panic", o["panic"])
+            if pm not in ref:
+                ref[pm] = (key, api, kind)
+            elif ref[pm][0] != key:
+                ctx.notes.append("process_memory=%s on %s: %s/%s reports %s, %s/%s reports %s"
+                                 % (pm, case["asset"], api, kind, key, ref[pm][1], ref[pm][2], ref[pm][0]))
+                return (False, False, 0)
+        ctx.count("pm: the flag changes the verdicts" if ref[False][0] != ref[True][0] else "pm: same verdicts with and without the flag")
+        return (True, True, 0)
+
     def gen_case(self, rng):
+        if rng.chance(1, 12):
+            return self.gen_pm(rng)
         if rng.chance(1, 5):
             return self.gen_rich(rng)
         if rng.chance(1, 5):
@@ -115,12 +168,17 @@ class C06(Prop):
         os.makedirs(wd, exist_ok=True)
         ctx.workdir = wd
         def rules_of(c):
+            if c.get("kind") == "pm":
+                return [{"ns": "default", "src": c["rules_src"]}]
             if c.get("kind") == "rich":
                 from . import c07
                 return c07.harness_rules(c["c07"])
             return ruleset.harness_rules(c["rs"])
-        hc = [{"rules": rules_of(c), "input": {"mem": c["mem"]}, "workdir": wd,
-               "configs": [c_[1] for c_ in CONFIGS]} for c in cases]
+        def configs_of(c):
+            if c.get("kind") == "pm":
+                return [{"params": {"process_memory": pm}, "api": api, "input_kind": kind} for pm, api, kind in self.PM_CONFIGS]
+            return [c_[1] for c_ in CONFIGS]
+        hc = [{"rules": rules_of(c), "input": {"mem": c["mem"]}, "workdir": wd, "configs": configs_of(c)} for c in cases]
         return core.harness_run(ctx.binp, "c06", hc)
 
     def cleanup(self, ctx):
@@ -154,6 +212,8 @@ class C06(Prop):
         return (True, True, 0)
 
     def term(self, ctx, case, out):
+        if case.get("kind") == "pm":
+            return self.term_pm(ctx, case, out)
         if case.get("kind") == "rich":
             return self.term_rich(ctx, case, out)
         rs = case["rs"]
@@ -183,6 +243,8 @@ class C06(Prop):
         return "C06_case %s %s %s" % (ruleset.g_scanner(rs), ruleset.g_inputs(rs, mem), glist(runs))
 
     def nontrivial(self, case, out):
+        if case.get("kind") == "pm":
+            return json.dumps([case["asset"], case["rules_src"]])
         if case.get("kind") == "rich":
             return json.dumps(case, sort_keys=True) if any(r["strings"] for r in case["c07"]["rules"]) else None
         try:
@@ -194,6 +256,8 @@ class C06(Prop):
             return None
 
     def sample(self, case, out):
+        if case.get("kind") == "pm":
+            return {"asset": case["asset"], "rules": case["rules_src"]}
         if case.get("kind") == "rich":
             from . import c07
             return {"rules": [(x["ns"], x["src"]) for x in c07.harness_rules(case["c07"])], "mem": case["mem"]}
